@@ -20,6 +20,25 @@ def coord_pool(rng, lo, hi, size):
     return rng.choice([32768, -32769, 40000, -70000, 1e6])
 
 
+def hist_text(h):
+    """SCREEN statement of one history step [mode, colorswitch, apage, vpage] (None = argument omitted)."""
+    parts = ['' if v is None else '%d' % v for v in h]
+    while parts and parts[-1] == '':
+        parts.pop()
+    return 'SCREEN ' + ','.join(parts)
+
+
+def hist_pages(hist):
+    """(apage, vpage) that GW-BASIC's rules give after the SCREEN statements of a history, starting from 0, 0:
+    an omitted active page persists, an omitted visual page becomes the active page."""
+    ap = vp = 0
+    for (m, cs, a, v) in hist:
+        if a is not None:
+            ap = a
+        vp = v if v is not None else ap
+    return ap, vp
+
+
 class C30(core.Check):
     ID = 'C30'
     GEN = ['gen_viewport', 'gen_raster']
@@ -48,7 +67,8 @@ class C30(core.Check):
     RULE = ('a real Session per video adapter (quick: cga, ega; thorough: + vga, tandy, pcjr, hercules, olivetti, '
             'ega_mono), every graphics SCREEN of it, random active/visual page, optional VIEW [SCREEN] and WINDOW '
             '[SCREEN], uniform background; one random statement (PSET PRESET LINE[,B|BF][,style] VIEW CIRCLE PAINT '
-            'DRAW PUT) with coordinates far inside / at / just outside / far outside screen and viewport; text mode '
+            'DRAW PUT) - in part after a history of SCREEN statements that selects a non-zero active page and then '
+            'changes mode / colorswitch with omitted or equal page arguments - with coordinates far inside / at / just outside / far outside screen and viewport; text mode '
             'cases; pixel buffers of ALL pages diffed before/after; non-trivial = at least one pixel changed or a '
             'BASIC error; distinct by hash of (case, output)')
     histogram = None
@@ -101,6 +121,17 @@ class C30(core.Check):
             c(screen=0, stmt={'k': 'paint', 'x': 5, 'y': 5, 'c': 2}),
             c(screen=0, stmt={'k': 'draw', 's': 'U10'}),
             c(screen=0, stmt={'k': 'put', 'x': 5, 'y': 5, 'w': 8, 'h': 6, 'op': 0, 'seed': 1}),
+            # seeded C30: page kept over a mode change (SCREEN 7,,1,1 : SCREEN 8) - drawing must go to page 1
+            c(video='vga', screen=8, hist=[[7, None, 1, 1], [8, None, None, None]],
+              stmt={'k': 'line', 'x0': 20, 'y0': 20, 'x1': 40, 'y1': 30, 'c': 5, 'shape': 'BF'}),
+            c(video='vga', screen=9, hist=[[7, None, 1, 1], [9, None, 1, None]],
+              stmt={'k': 'pset', 'x': 10, 'y': 10, 'c': 3}),
+            c(video='ega', screen=7, hist=[[8, None, 2, 0], [7, None, None, 0]],
+              stmt={'k': 'circle', 'x': 100, 'y': 100, 'r': 20, 'c': 2}),
+            c(video='ega', screen=1, hist=[[1, 1, 3, 3], [None, 0, None, None]],
+              stmt={'k': 'line', 'x0': 0, 'y0': 0, 'x1': 100, 'y1': 50, 'c': 2, 'shape': 'B'}),
+            c(video='vga', screen=8, hist=[[8, None, 1, 1], [None, None, 0, 0], [7, None, None, None], [8, None, 1, None]],
+              stmt={'k': 'paint', 'x': 5, 'y': 5, 'c': 2}),
             c(window=[-100, -100, 100, 100, False], stmt={'k': 'line', 'x0': -150, 'y0': -150, 'x1': 150, 'y1': 150,
                                                           'c': 2, 'shape': 'B'}),
             c(window=[0, 0, 1, 1, True], view=[20, 20, 120, 90, False],
@@ -226,6 +257,30 @@ class C30(core.Check):
                                   rng.random() < 0.5]
             if not text and rng.random() < 0.3:
                 case['last'] = [coord_pool(rng, 0, w - 1, w), coord_pool(rng, 0, h - 1, h)]
+            if not text and video in ('cga', 'ega', 'vga') and rng.random() < 0.22:
+                # a history: non-zero active page selected, then mode / colorswitch changes with omitted or equal
+                # page arguments (pages persist over SCREEN), ending in this case's mode
+                modes = G.SCREENS[video]
+                a = rng.choice([1, 1, 2, 3])
+                hh = [[rng.choice(modes), None, a, rng.choice([None, a, 0])]]
+                for _ in range(rng.choice([1, 1, 2])):
+                    kind = rng.random()
+                    m2 = rng.choice(modes)
+                    if kind < 0.4:
+                        hh.append([m2, None, None, None])
+                    elif kind < 0.6:
+                        hh.append([m2, None, a, None])
+                    elif kind < 0.75:
+                        hh.append([m2, rng.choice([0, 1]), None, rng.choice([None, 0, a])])
+                    elif kind < 0.85:
+                        hh.append([None, rng.choice([0, 1]), None, None])
+                    else:
+                        a = rng.choice([0, 1, 2])
+                        hh.append([None, None, a, rng.choice([None, 0])])
+                hh.append(rng.choice([[screen, None, None, None], [screen, None, a, None],
+                                        [screen, rng.choice([0, 1]), None, None]]))
+                case['hist'] = hh
+                case['bg'] = 0
             case['stmt'] = self.gen_stmt(rng, w, h, vrect, nattr, text)
             if case['stmt']['k'] == 'paint' and case['window'] and 'tile' in case['stmt']:
                 pass
@@ -237,6 +292,9 @@ class C30(core.Check):
                 hist['with VIEW'] = hist.get('with VIEW', 0) + 1
             if case['window']:
                 hist['with WINDOW'] = hist.get('with WINDOW', 0) + 1
+            if case.get('hist'):
+                hist['with SCREEN history (page kept over mode change)'] = \
+                    hist.get('with SCREEN history (page kept over mode change)', 0) + 1
             out.append(case)
         self.histogram = hist
         return out
@@ -317,9 +375,19 @@ class C30(core.Check):
 
     def _run_in(self, s, case, st):
         import random
-        err = G.reset(s, case['screen'])
+        hist = case.get('hist')
+        err = G.reset(s, 0 if hist else case['screen'])
         if err:
             raise RuntimeError('SCREEN %d not available on %s: %s' % (case['screen'], case['video'], err))
+
+        def enter():
+            # a history of SCREEN statements: page selections followed by mode / colorswitch changes that keep them
+            for hstep in (hist or []):
+                s._impl.interpreter.error_num = 0
+                s.execute(hist_text(hstep))
+                if s._impl.interpreter.error_num:
+                    raise RuntimeError('history step %s refused on %s' % (hist_text(hstep), case['video']))
+        enter()
         disp = s._impl.display
         g = disp.graphics
         text = bool(g._mode.is_text_mode)
@@ -336,7 +404,10 @@ class C30(core.Check):
                     ex('PSET (%d,%d),%d' % (r2.randrange(st['w']), r2.randrange(st['h']), r2.randrange(na)))
                 ex('GET (0,0)-(%d,%d),A%%' % (st['w'] - 1, st['h'] - 1))
                 ex('SCREEN 0,,0,0')
-                ex('SCREEN %d' % case['screen'])
+                if hist:
+                    enter()
+                else:
+                    ex('SCREEN %d' % case['screen'])
                 s._impl.interpreter.error_num = 0
                 disp = s._impl.display
                 g = disp.graphics
@@ -346,17 +417,22 @@ class C30(core.Check):
         if not text:
             npages = len(disp.pages)
             ap, vp = case['apage'] % npages, case['vpage'] % npages
+            if hist:
+                # the active page follows from the BASIC statements issued, not from the implementation's state
+                ap, vp = hist_pages(hist)
             sel = []
             for p in (ap, (ap + 1) % npages, vp, 0):
                 if p not in sel:
                     sel.append(p)
             sel = sel[:3]
             w, h = g._mode.pixel_width, g._mode.pixel_height
-            if case['bg']:
+            if case['bg'] and not hist:
                 for p in sel:
                     ex('SCREEN ,,%d,%d' % (p, p))
                     ex('LINE (0,0)-(%d,%d),%d,BF' % (w - 1, h - 1, case['bg']))
-            ex('SCREEN ,,%d,%d' % (ap, vp))
+            if not hist:
+                # (with a history no further page statement is issued: it would re-select the page)
+                ex('SCREEN ,,%d,%d' % (ap, vp))
             if case['view']:
                 v = case['view']
                 # VIEW with fill = background so that nothing visible changes
@@ -537,7 +613,9 @@ class C30(core.Check):
         ap = info['ap']
         for p, d in enumerate(diffs):
             if p != ap and d:
-                return 'page %d (active page is %d) changed at %r by %s' % (p, ap, d[:3], self.stmt_text(case['stmt']))
+                return 'page %d (active page is %d%s) changed at %r by %s' % (
+                    p, ap, (' after ' + ': '.join(hist_text(h) for h in case['hist'])) if case.get('hist') else '',
+                    d[:3], self.stmt_text(case['stmt']))
         x0, y0, x1, y1 = info['rect']
         if case['stmt']['k'] in ('view', 'view0'):
             x0, y0, x1, y1 = 0, 0, info['w'] - 1, info['h'] - 1
@@ -554,15 +632,23 @@ class C30(core.Check):
     def describe(self, case):
         d = dict(case)
         d['text'] = self.stmt_text(case['stmt'])
+        if case.get('hist'):
+            d['history'] = ': '.join(hist_text(h) for h in case['hist'])
         return d
 
     def undescribe(self, case):
         d = dict(case)
         d.pop('text', None)
+        d.pop('history', None)
         return d
 
     def shrink_candidates(self, case):
         case = self.undescribe(case)
+        if case.get('hist') and len(case['hist']) > 2:
+            for i in range(1, len(case['hist']) - 1):
+                d = dict(case)
+                d['hist'] = case['hist'][:i] + case['hist'][i + 1:]
+                yield d
         for key in ('window', 'view', 'last'):
             if case.get(key) is not None:
                 d = dict(case)
